@@ -112,6 +112,15 @@ def strategy(ctx):
     return case_strategy()
 
 
+def _unique_methods(cnode):
+    """methods whose name occurs once in the class body (two generated methods of the same name are the generator's
+    duplicate: `merge_inner_function` can only name one of them)"""
+    ms = [b for b in cnode.body if isinstance(b, ast.FunctionDef)]
+    names = [m.name for m in ms]
+    attrs = {t.id for b in cnode.body if isinstance(b, (ast.Assign, ast.AnnAssign)) for t in (b.targets if isinstance(b, ast.Assign) else [b.target]) if isinstance(t, ast.Name)}
+    return [m for m in ms if names.count(m.name) == 1 and m.name not in attrs]
+
+
 def sig_names(fn):
     a = fn.args
     strict = [x.arg for x in a.args + a.kwonlyargs]
@@ -138,7 +147,10 @@ def oracle(case):
                 ir = cdd.function.parse.function(node, **({"function_type": case["function_type"]} if case.get("function_type") else {}))
             elif kind == "class-merge":
                 cnode = ast.parse(case["src"]).body[0]
-                methods = [b for b in cnode.body if isinstance(b, (ast.FunctionDef,))]
+                methods = _unique_methods(cnode)
+                if not methods:
+                    r.label("n/a:duplicate-method-names")
+                    return r
                 inner = methods[case["pick"] % len(methods)]
                 ir = cdd.class_.parse.class_(cnode, merge_inner_function=inner.name)
             else:
@@ -177,7 +189,7 @@ def oracle(case):
             node = ast.parse(case["src"]).body[0]
         else:
             cnode = ast.parse(case["src"]).body[0]
-            methods = [b for b in cnode.body if isinstance(b, (ast.FunctionDef,))]
+            methods = _unique_methods(cnode)
             node = methods[case["pick"] % len(methods)]
             r.label("class-merge")
         if case.get("function_type"):
